@@ -53,7 +53,43 @@ def run(ctx):
     verdict, vs = ctx.validate("C12Trace.tla", "C12_trace.cfg", trace)
     nviol, known = H.report(ctx, verdict["bad"], lambda i: {"lens": cases[i]["lens"][:50], "n": len(cases[i]["lens"])}, trace)
     st = verdict["stats"]
+
+    # binding self-test: one recorded element / collection field altered must be objected to
+    def _alter_elem(evs):
+        for e in evs:
+            if e.get("op") == "vlraw" and e.get("usable") and e.get("els"):
+                for k in ("spec", "alt", "lib"):
+                    if k in e["els"][0]:
+                        e["els"][0][k]["dig"] = "0" + str(e["els"][0][k].get("dig", ""))
+                return evs
+        return None
+
+    def _drop_elem(evs):
+        for e in evs:
+            if e.get("op") == "vlraw" and e.get("usable") and len(e.get("els", [])) >= 2:
+                e["els"] = e["els"][:-1]
+                return evs
+        return None
+
+    def _shrink_collection(evs):
+        for e in evs:
+            if e.get("op") == "vlraw" and e.get("usable") and e.get("colls") and e["colls"][0].get("sizes"):
+                c = e["colls"][0]
+                c["size"] = 16 + sum(16 + (x + 7) // 8 * 8 for x in c["sizes"]) - 8
+                return evs
+        return None
+
+    def _dup_index(evs):
+        for e in evs:
+            if e.get("op") == "vlraw" and e.get("usable") and e.get("colls") and len(e["colls"][0].get("idxs", [])) >= 2:
+                e["colls"][0]["idxs"][1] = e["colls"][0]["idxs"][0]
+                return evs
+        return None
+    selftest = H.binding_selftest(ctx, "C12Trace.tla", "C12_trace.cfg", trace,
+                                  [("element-bytes-altered", _alter_elem), ("element-dropped", _drop_elem),
+                                   ("collection-size-shrunk", _shrink_collection), ("object-index-duplicated", _dup_index)], allow_rejected=True)
     cov = {
+        "binding_selftest": selftest,
         "states": gr.distinct, "transitions": gr.generated,
         "traces_validated_against_impl": st["cases"],
         "samples": [cases[0], cases[ngen // 2], {"lens": cases[ngen]["lens"][:20], "n": len(cases[ngen]["lens"])}],
